@@ -124,7 +124,29 @@ def stage2(only):
         print("%s confirmed=%s caught_by=%s (%.0fs)" % (name, ok, result.get("caught_by"), time.time() - t0), flush=True)
 
 
+def retry(names, checks=None):
+    """re-run the checks against seeded/<name>/patch.diff and refresh its meta.json"""
+    for name in names:
+        dest = os.path.join(ROOT, "seeded", name)
+        mp = os.path.join(dest, "meta.json")
+        meta = json.load(open(mp))
+        prop = meta["breaks_property"]
+        which = checks or RELATED[prop]
+        rc, o = sh([os.path.join(ROOT, "tools", "try_seeded.py"), os.path.join(dest, "patch.diff"), which], timeout=7200)
+        lines = [l for l in o.splitlines() if l.startswith("C") and "rc=" in l]
+        old = {l.split()[0]: l for l in meta.get("checks_output", [])}
+        for l in lines:
+            old[l.split()[0]] = l
+        meta["checks_output"] = [old[k] for k in sorted(old)]
+        meta["caught_by"] = ",".join(k for k in sorted(old) if "rc=0" not in old[k])
+        meta.setdefault("retries", []).append("re-run after strengthening: " + which)
+        json.dump(meta, open(mp, "w"), indent=1)
+        print(name, "caught_by", meta["caught_by"], flush=True)
+
+
 def main():
+    if sys.argv[1:2] == ["retry"]:
+        return retry(sys.argv[2].split(","), sys.argv[3] if len(sys.argv) > 3 else None)
     if sys.argv[1:2] == ["stage1"]:
         return stage1()
     if sys.argv[1:2] == ["stage2"]:
